@@ -51,6 +51,8 @@ pub struct Sched {
     mu: Mutex<Inner>,
     cv: Condvar,
     seq: AtomicU64,
+    /// free-running: the hook only yields the CPU, the OS (or Miri) schedules the threads
+    free: bool,
 }
 
 thread_local! {
@@ -59,6 +61,10 @@ thread_local! {
 
 impl Sched {
     fn new(n: usize, seed: u64, mode: Mode) -> Arc<Sched> {
+        Self::new_mode(n, seed, mode, false)
+    }
+
+    fn new_mode(n: usize, seed: u64, mode: Mode, free: bool) -> Arc<Sched> {
         let mut rng = Rng::new(seed);
         let prio: Vec<u64> = (0..n).map(|_| 1000 + rng.below(1_000_000)).collect();
         let depth = rng.urange(1, 3);
@@ -81,6 +87,7 @@ impl Sched {
             }),
             cv: Condvar::new(),
             seq: AtomicU64::new(1),
+            free,
         })
     }
 
@@ -152,6 +159,10 @@ impl Sched {
     }
 
     fn yield_point(&self, tid: usize, name: &'static str, yielding: bool) {
+        if self.free {
+            std::thread::yield_now();
+            return;
+        }
         let mut g = self.mu.lock();
         g.waiting[tid] = Some(name);
         g.yielding[tid] = yielding;
@@ -166,6 +177,9 @@ impl Sched {
     }
 
     fn finish(&self, tid: usize) {
+        if self.free {
+            return;
+        }
         let mut g = self.mu.lock();
         g.finished[tid] = true;
         g.waiting[tid] = None;
@@ -428,11 +442,20 @@ pub struct Outcome {
 }
 
 pub fn run_schedule(seed: u64) -> Outcome {
+    run_schedule_mode(seed, false)
+}
+
+/// Same threads and plan, but nobody is parked at the hooks: real (or Miri's) thread scheduling.
+pub fn run_free(seed: u64) -> Outcome {
+    run_schedule_mode(seed, true)
+}
+
+fn run_schedule_mode(seed: u64, free: bool) -> Outcome {
     install_hook();
     let mut rng = Rng::new(seed);
     let plan = gen_plan(&mut rng);
     let n_threads = plan.senders.len() + plan.controllers + 1;
-    let sched = Sched::new(n_threads, seed ^ 0x5ced, plan.mode);
+    let sched = Sched::new_mode(n_threads, seed ^ 0x5ced, plan.mode, free);
     let log = Arc::new(Log {
         sched: sched.clone(),
         events: Mutex::new(vec![]),
@@ -511,7 +534,7 @@ pub fn run_schedule(seed: u64) -> Outcome {
             let handle = ctrl.start_blocking();
             log.push(Ev::BlockStarted(c));
             let mut done = false;
-            for _ in 0..400 {
+            for _ in 0..(if free { 400_000 } else { 400 }) {
                 point_yielding("ctl:poll");
                 if ctrl.blocking_done() {
                     done = true;
@@ -522,7 +545,7 @@ pub fn run_schedule(seed: u64) -> Outcome {
                 log.push(Ev::BarrierDone(c));
             } else {
                 log.push(Ev::BarrierTimeout(c));
-                *incomplete.lock() = Some("barrier never observed done within 400 polls".to_string());
+                *incomplete.lock() = Some("barrier never observed done within the poll budget".to_string());
             }
             for _ in 0..holds {
                 point("ctl:hold");
@@ -559,7 +582,7 @@ pub fn run_schedule(seed: u64) -> Outcome {
                             break;
                         }
                         spins += 1;
-                        if spins > 5000 {
+                        if spins > (if free { 4_000_000 } else { 5000 }) {
                             *incomplete.lock() = Some("backend thread spun 5000 times".to_string());
                             break;
                         }
@@ -768,6 +791,61 @@ pub fn judge(rep: &mut Report, seed: u64, o: &Outcome) {
     }
 }
 
+/// Oracle for free-running executions: event sequence numbers come from one atomic counter, so
+/// "between" is sound in one direction only and is used only that way: a backend hand-over whose
+/// number lies after a controller's BARRIER_DONE (taken after blocking_done() returned true) and
+/// before the same controller's UNBLOCK_BEGIN (taken before its handle is dropped) happened
+/// while that controller was certainly still blocking.
+pub fn judge_free(rep: &mut Report, seed: u64, o: &Outcome) {
+    rep.evaluations += 1;
+    let replay = || {
+        json!({"schedule_seed": seed, "mode": "free-running", "plan": format!("{:?}", o.plan),
+            "events": o.events.iter().map(|(s, e)| format!("{} {:?}", s, e)).collect::<Vec<_>>()})
+    };
+    rep.distinct_hash(fnv64(format!("{:?}", o.events.iter().map(|e| &e.1).collect::<Vec<_>>()).as_bytes()));
+    if o.incomplete.is_some() {
+        rep.count("free_runs_incomplete", 1);
+        return;
+    }
+    for c in 0..o.plan.controllers {
+        let b = o.events.iter().find(|(_, e)| *e == Ev::BarrierDone(c)).map(|x| x.0);
+        let u = o.events.iter().find(|(_, e)| *e == Ev::UnblockBegin(c)).map(|x| x.0);
+        if let (Some(b), Some(u)) = (b, u) {
+            rep.count("free_barrier_windows_observed", 1);
+            for (s, e) in o.events.iter() {
+                if let Ev::InnerSend(id) = e {
+                    if b < *s && *s < u {
+                        rep.violation(
+                            "C11:command-handed-to-backend-inside-barrier",
+                            format!("free-running threads: task {} reached the backend sender at event {} although controller {} had observed blocking_done (event {}) and had not begun to unblock (event {})", id, s, c, b, u),
+                            replay(),
+                        );
+                    }
+                }
+            }
+        }
+    }
+    for id in 0..o.n_tasks {
+        let c = |f: &dyn Fn(&Ev) -> bool| o.events.iter().filter(|(_, e)| f(e)).count();
+        let inner = c(&|e| *e == Ev::InnerSend(id));
+        let gave = c(&|e| *e == Ev::GaveUp(id));
+        let serr = c(&|e| matches!(e, Ev::SendErr(i, _) if *i == id));
+        let dropped = c(&|e| *e == Ev::Dropped(id));
+        let total = inner + gave + serr;
+        if c(&|e| *e == Ev::Redispatch(id)) > 0 {
+            rep.count("free_tasks_queued_then_redispatched", 1);
+        }
+        if dropped > 0 {
+            rep.violation("C11:task-dropped-without-result", format!("free-running threads: task {} was dropped without any result", id), replay());
+        } else if total == 0 {
+            rep.violation("C11:queued-command-never-released", format!("free-running threads: task {} stays parked although every blocker is gone", id), replay());
+        } else if total > 1 {
+            rep.violation("C11:command-handled-twice", format!("free-running threads: task {}: backend hand-overs {}, gave up {}, send errors {}", id, inner, gave, serr), replay());
+        }
+    }
+    rep.count("free_tasks_submitted", o.n_tasks as u64);
+}
+
 pub fn run(rep: &mut Report) {
     rep.rule = "the real TaskBlockingQueue (built through BlockingMap / TaskBlockingQueueSenderFactory) with a recording backend sender that keeps commands in flight and a recording re-dispatch sender; 2-3 sender threads (1-3 tasks each, hints built like the migrating task builds them, up to 3 retries), 1-2 controllers (start_blocking, poll blocking_done, hold, drop the handle) and a backend thread; a cooperative scheduler installed at the verif_point hooks releases one thread at a time, uniformly at random or PCT-style. Oracle over the totally ordered log: no backend hand-over between BARRIER_DONE and the CAS that brings the blocker count to 0; every task handled exactly once; re-dispatch only after an unblock; nothing left parked. distinct_nontrivial = distinct schedules (hash of the (thread, point) sequence)".to_string();
     let thorough = rep.is_thorough();
@@ -788,6 +866,11 @@ pub fn run(rep: &mut Report) {
                 let s = Rng::sub_seed(seed, i);
                 let o = run_schedule(s);
                 judge(&mut local, s, &o);
+                // every 4th plan also runs with free-running OS threads (no parking at the hooks)
+                if i % 4 == 0 {
+                    let o = run_free(s);
+                    judge_free(&mut local, s, &o);
+                }
             }
             local
         }));
@@ -803,5 +886,6 @@ pub fn run(rep: &mut Report) {
     rep.floor("schedules_with_sender_inside_critical_section_at_a_blocker_cas", 500);
     rep.floor("schedules_where_a_sender_drained_the_queue", 100);
     rep.floor("schedules_with_two_blockers", 1_000);
+    rep.floor("free_barrier_windows_observed", 1_000);
     rep.assumptions.push("interleavings are sampled at the granularity of the hook points (one per shared-memory access in blocking.rs and biatomic.rs); they are not enumerated exhaustively".to_string());
 }
